@@ -16,6 +16,17 @@ import (
 // Being an over-approximation, "X is not in the slice" is a sound
 // "does not depend on X".
 func BackwardSlice(fn *ssa.Function, roots ...ssa.Value) map[ssa.Value]bool {
+	return backwardSlice(fn, false, roots...)
+}
+
+// DataSlice is BackwardSlice without control dependence: only operand and
+// memory dependence (what the value is computed from, not what decides whether
+// it is computed).
+func DataSlice(fn *ssa.Function, roots ...ssa.Value) map[ssa.Value]bool {
+	return backwardSlice(fn, true, roots...)
+}
+
+func backwardSlice(fn *ssa.Function, dataOnly bool, roots ...ssa.Value) map[ssa.Value]bool {
 	seen := map[ssa.Value]bool{}
 	var work []ssa.Value
 	push := func(v ssa.Value) {
@@ -38,7 +49,7 @@ func BackwardSlice(fn *ssa.Function, roots ...ssa.Value) map[ssa.Value]bool {
 	}
 	ctlDone := map[*ssa.BasicBlock]bool{}
 	addControl := func(b *ssa.BasicBlock) {
-		if b == nil || ctlDone[b] {
+		if b == nil || ctlDone[b] || dataOnly {
 			return
 		}
 		ctlDone[b] = true
@@ -77,16 +88,32 @@ func BackwardSlice(fn *ssa.Function, roots ...ssa.Value) map[ssa.Value]bool {
 			for _, p := range v.Block().Preds {
 				addControl(p)
 				// the branch deciding which edge is taken
-				if ifi, ok := p.Instrs[len(p.Instrs)-1].(*ssa.If); ok {
+				if ifi, ok := p.Instrs[len(p.Instrs)-1].(*ssa.If); ok && !dataOnly {
 					push(ifi.Cond)
 				}
 			}
 		case *ssa.UnOp:
 			// load: every store into the same memory root
-			for _, st := range storesByRoot[memRoot(v.X)] {
+			root := memRoot(v.X)
+			for _, st := range storesByRoot[root] {
 				push(st.Val)
 				push(st.Addr)
 				addControl(st.Block())
+			}
+			// a local whose address is handed to a call (json.Unmarshal(data, &x),
+			// Decode(&x), …) is filled from that call's other arguments
+			if al, ok := root.(*ssa.Alloc); ok {
+				for _, ci := range callsReceiving(al) {
+					for _, a := range ci.Common().Args {
+						push(a)
+					}
+					if ci.Common().IsInvoke() {
+						push(ci.Common().Value)
+					}
+					if cv, ok := ci.(ssa.Value); ok {
+						_ = cv
+					}
+				}
 			}
 		case *ssa.Index, *ssa.Lookup:
 		}
@@ -101,6 +128,34 @@ func BackwardSlice(fn *ssa.Function, roots ...ssa.Value) map[ssa.Value]bool {
 		}
 	}
 	return seen
+}
+
+// callsReceiving lists the calls that receive the address of an allocation,
+// directly or wrapped in an interface.
+func callsReceiving(al *ssa.Alloc) []ssa.CallInstruction {
+	var out []ssa.CallInstruction
+	var walk func(v ssa.Value, depth int)
+	walk = func(v ssa.Value, depth int) {
+		if depth > 3 || v.Referrers() == nil {
+			return
+		}
+		for _, r := range *v.Referrers() {
+			switch x := r.(type) {
+			case ssa.CallInstruction:
+				out = append(out, x)
+			case *ssa.MakeInterface:
+				walk(x, depth+1)
+			case *ssa.ChangeType:
+				walk(x, depth+1)
+			case *ssa.FieldAddr:
+				if x.X == v {
+					walk(x, depth+1)
+				}
+			}
+		}
+	}
+	walk(al, 0)
+	return out
 }
 
 // memRoot strips field/index/slice steps from an address to its base object.
